@@ -35,7 +35,7 @@ CHECKS = {
     "C04": dict(
         engine="S", category="model_checking", design="3/C04",
         technique="explicit-state search over accepted call prefixes of every ordered clause sequence on the real runtime, lock-step with a reference model",
-        text="Every sequence of <= 2 (quick) / <= 3 (thorough) ordered clauses over two methods, three predicates, counts 0..3 and response chains inside a slot range, with an unordered clause (open or exactly quantified) at every position; every model-accepted prefix is extended by every possible call; slot ranges after assembly, the response of each accepted call, the panic class and named pattern of each deviating call, the global index and the final verdict are compared. Added families: the disjunctive matcher form (a later alternative must be accepted in order), deviations on methods with a real function in strict and partial mocks, n ordered clauses composed as one real n-tuple for every arity 2..16. Both tiers also run on the no_std+spin-lock build. Cells with arguments whose Debug calls back into the mock: a fully declared sequence made as declared is consumed by the caller's calls only.",
+        text="Every sequence of <= 2 (quick) / <= 3 (thorough) ordered clauses over two methods, three predicates, counts 0..3 and response chains inside a slot range, with an unordered clause (open or exactly quantified) at every position; every model-accepted prefix is extended by every possible call; slot ranges after assembly, the response of each accepted call, the panic class and named pattern of each deviating call, the global index and the final verdict are compared. Added families: the disjunctive matcher form (a later alternative must be accepted in order), deviations on methods with a real function in strict and partial mocks, n ordered clauses composed as one real n-tuple for every arity 2..16. Both tiers also run on the no_std+spin-lock build. Cells with arguments whose Debug calls back into the mock: a fully declared sequence made as declared is consumed by the caller's calls only. A fourth predicate is a hand-written disjunctive matcher that reports the alternative it passed over before accepting; count forms include series whose last response is quantified with once().",
         note=S_NOTE + " Behaviour after the first deviating call is unspecified and not explored."),
     "C07": dict(
         engine="S", category="model_checking", design="3/C07",
@@ -50,12 +50,12 @@ CHECKS = {
     "C08": dict(
         engine="S+T", category="model_checking", design="3/C08",
         technique="bounded exhaustive exploration of call histories over all mock-error kinds x instance/thread routings on the real runtime (lock-step model), plus stateless model checking of concurrent panicking calls under a controlled scheduler",
-        text="Sequential: every history of depth 2 (all four routings: original/clone x caught/propagated to a thread boundary), depth 3 (quick: one routing; thorough: all) and depth 4 (thorough, two routings) over 16 calls covering 11 mock-error kinds, 3 user-panic origins and accepted calls; after dropping the clones the original's verification must fail iff the model saw a mock-induced panic and then contain every such panic's text in order; otherwise exactly the expectation lines. Concurrent: 2-3 threads x 1-2 panicking calls on clones, every schedule with <= 2 (quick) / <= 3 (thorough) preemptions: number of recorded errors equals number of mock-induced panics and the verdict text carries each thread's errors in program order. Every error kind is also raised by zero-argument methods. Both tiers repeat the sequential half on the no_std+spin-lock build: errors induced through clones are reported as with std; after a mock-induced panic on the original its verification must be silent (documented). Every history of up to two calls is also verified through Termination::report() (FAILURE iff the other ways fail); in the concurrent half a panic that is neither mock-induced nor raised by user code is a violation.",
+        text="Sequential: every history of depth 2 (all four routings: original/clone x caught/propagated to a thread boundary), depth 3 (quick: one routing; thorough: all) and depth 4 (thorough, two routings) over 16 calls covering 11 mock-error kinds, 3 user-panic origins and accepted calls; after dropping the clones the original's verification must fail iff the model saw a mock-induced panic and then contain every such panic's text in order; otherwise exactly the expectation lines. Concurrent: 2-3 threads x 1-2 panicking calls on clones, every schedule with <= 2 (quick) / <= 3 (thorough) preemptions: number of recorded errors equals number of mock-induced panics and the verdict text carries each thread's errors in program order. Every error kind is also raised by zero-argument methods. Both tiers repeat the sequential half on the no_std+spin-lock build: errors induced through clones are reported as with std; after a mock-induced panic on the original its verification must be silent (documented). Every history of up to two calls is also verified through Termination::report() (FAILURE iff the other ways fail); in the concurrent half a panic that is neither mock-induced nor raised by user code is a violation. Cells: a mock error raised inside a default body (three receivers x original / clone / worker thread) and error texts from 100 bytes to 12 KiB are carried in full.",
         note=S_NOTE + " " + T_NOTE),
     "C09": dict(
         engine="S", category="model_checking", design="3/C09",
         technique="explicit-state BFS over lifecycle event sequences on the real objects, states merged on the lifecycle model state which is checked against the implementation snapshot after every event",
-        text="Events: clone(i), drop(i), call(i), failing call(i), provided-method call(i) (internal helper clone), by-value provided-method call(i), make_ref(i, clone of i), verify(i), report(), report() on a clone, no_verify_in_drop(i), move the original to another thread and drop / verify it; <= 4 instances. Every event's outcome (silent / value / which refusal / failed-with-errors / failed-with-expectations / exit code) must equal the lifecycle model's, and the H3 instance() snapshot (original flag, verify-in-drop flag, live handle count, helper present, lent values) of every live instance must equal the model state. Quick: depth 6; thorough: to the fixpoint - the complete reachable state space within the caps (109,788 states on the pinned tree). Differential probes: every history (up to length 6 / 9) that ends in an already known model state is still extended by every single enabled event, so that implementation state invisible to the snapshot cannot hide behind state merging.",
+        text="Events: clone(i), drop(i), call(i), failing call(i), provided-method call(i) (internal helper clone), by-value provided-method call(i), make_ref(i, clone of i), verify(i), report(), report() on a clone, no_verify_in_drop(i), move the original to another thread and drop / verify it; <= 4 instances. Every event's outcome (silent / value / which refusal / failed-with-errors / failed-with-expectations / exit code) must equal the lifecycle model's, and the H3 instance() snapshot (original flag, verify-in-drop flag, live handle count, helper present, lent values) of every live instance must equal the model state. Quick: depth 6; thorough: to the fixpoint - the complete reachable state space within the caps (109,788 states on the pinned tree). Differential probes: every history (up to length 6 / 9) that ends in an already known model state is still extended by every single enabled event, so that implementation state invisible to the snapshot cannot hide behind state merging. Cells: an original created on a thread that has exited, finished by drop / verify() / report() on another thread, is refused.",
         note="Oracle = lifecycle model in harness/vh/src/bin/c09.rs derived from the property statement; states merged up to permutation of clone slots (events are symmetric in clone identity). std build only; when clones are alive and the thread is foreign either refusal is accepted."),
     "C12": dict(
         engine="S+T+G", category="model_checking", design="3/C12",
@@ -65,12 +65,12 @@ CHECKS = {
     "C13": dict(
         engine="S+T", category="model_checking", design="3/C13",
         technique="bounded exhaustive enumeration of lending operation sequences on the real runtime with instrumented payloads; stateless model checking of concurrent make_ref under a controlled scheduler",
-        text="All sequences of length 4 (quick) / 6 (thorough) over {make_ref<P1>, make_ref<P2>, borrowed returns() call, answer using make_ref, provided method lending through the delegation helper, make_mut<P1>, answer using make_mut, &mut provided method} x {original, clone}: after every step every held reference still reads its own intact payload, addresses are pairwise distinct, only what an exclusive operation on the same instance releases has been dropped; at the end everything is dropped exactly once, clone-owned values with the clone. Zero-sized lent values with drop glue. Long chains of 1 024 - 20 000 values lent and released on 64 KiB - 2 MiB stacks, in child processes. Concurrent: 2-3 threads x 1-3 make_ref on one shared &Unimock, all schedules at the operations of the instrumented OnceCell within the bound. Thorough: length 7. Both tiers also run on the no_std+spin-lock build. Instances also end inside a by-value provided method (its body sees nothing dropped but what exclusive operations released) and through Termination::report().",
+        text="All sequences of length 4 (quick) / 6 (thorough) over {make_ref<P1>, make_ref<P2>, borrowed returns() call, answer using make_ref, provided method lending through the delegation helper, make_mut<P1>, answer using make_mut, &mut provided method} x {original, clone}: after every step every held reference still reads its own intact payload, addresses are pairwise distinct, only what an exclusive operation on the same instance releases has been dropped; at the end everything is dropped exactly once, clone-owned values with the clone. Zero-sized lent values with drop glue. Long chains of 1 024 - 20 000 values lent and released on 64 KiB - 2 MiB stacks, in child processes. Concurrent: 2-3 threads x 1-3 make_ref on one shared &Unimock, all schedules at the operations of the instrumented OnceCell within the bound. Thorough: length 7. Both tiers also run on the no_std+spin-lock build. Instances also end inside a by-value provided method (its body sees nothing dropped but what exclusive operations released) and through Termination::report(). Lent values of type-erased and other unusual types (Box<dyn Any>, nested, in Option, Arc<dyn Any>, Box<u8>, String) read back what was lent, through make_ref and make_mut, on original and clone.",
         note="Trusted: once_cell's synchronisation; the harness keeps raw pointers only to values the property says are still lent. " + T_NOTE),
     "C18": dict(
         engine="S", category="model_checking", design="3/C18",
         technique="exhaustive enumeration of metamorphic relation instances (clause shuffles, call routings, interleaved twin mocks, generic instantiations) with a differential oracle on the real runtime",
-        text="(a) two base lists of 6 clauses, every sublist of >= 2 clauses, every admissible shuffle x every history of depth 3 (quick) / 4 (thorough); (b) every history x every assignment of its calls to original / clone 1 / clone 2; (c) every pair of depth-2 histories x every interleaving on two mocks built from the same clauses; (d) every pattern list over two instantiations of a generic method x every call sequence; (e) same-named generic methods of two traits in one module: every subset configured in every clause order x every call pair. Compared with the baseline run: every call's outcome (value or panic text), all counters, ordered index, recorded errors, verdict line multiset. (b) is repeated with no_verify_in_drop() right after construction and an explicit verify() at the end; (e) includes two instantiations of one generic method in different ordering modes.",
+        text="(a) two base lists of 6 clauses, every sublist of >= 2 clauses, every admissible shuffle x every history of depth 3 (quick) / 4 (thorough); (b) every history x every assignment of its calls to original / clone 1 / clone 2; (c) every pair of depth-2 histories x every interleaving on two mocks built from the same clauses; (d) every pattern list over two instantiations of a generic method x every call sequence; (e) same-named generic methods of two traits in one module: every subset configured in every clause order x every call pair. Compared with the baseline run: every call's outcome (value or panic text), all counters, ordered index, recorded errors, verdict line multiset. (b) is repeated with no_verify_in_drop() right after construction and an explicit verify() at the end; (e) includes two instantiations of one generic method in different ordering modes. (b) is also run on a partial mock over calls that fall through to real functions and default bodies.",
         note="Pure differential oracle: the baseline run of the real mock is the expected value; no reference model involved."),
     "C05": dict(
         engine="G", category="exploration", design="3/C05",
@@ -80,12 +80,12 @@ CHECKS = {
     "C06": dict(
         engine="G", category="exploration", design="3/C06",
         technique="exhaustive enumeration of a catalogue-driven grammar of matching! invocations, each evaluated on its whole finite argument domain against a native Rust match",
-        text="Sub-patterns of 11 argument types (literals, ranges, wildcards, bindings, @-bindings, or-patterns, tuple/struct/enum/Option patterns, slice patterns with rest, string literals against &str/String/AsRef<str> newtype, bare unit variants, eq!/ne!), 1-3 arguments, simple and disjunctive form (2-4 alternatives, every pair over a sub-pattern set with eq!/ne! in all positions), guards incl. || combined with eq!/ne!, mixed literal kinds per position. Every argument tuple of the domain in three modes (unordered strict, unordered with fallback, ordered) must be accepted iff the emitted native match accepts it. Also: guards that read state outside the arguments (arity 0..2, evaluated per call), disjunctions whose alternatives differ only inside a struct / enum / tuple pattern or in their path, three and four alternatives as documented. Bindings named like identifiers of the expansion (a<i>, l<k>, m<i>, reporter, mismatch) next to eq!/ne! and string literals must compile and decide like the native match; eq!/ne! mixed at one position across alternatives. eq!/ne! over a type with an asymmetric == and over a type that is PartialEq<str> and AsRef<str> with different equalities.",
+        text="Sub-patterns of 11 argument types (literals, ranges, wildcards, bindings, @-bindings, or-patterns, tuple/struct/enum/Option patterns, slice patterns with rest, string literals against &str/String/AsRef<str> newtype, bare unit variants, eq!/ne!), 1-3 arguments, simple and disjunctive form (2-4 alternatives, every pair over a sub-pattern set with eq!/ne! in all positions), guards incl. || combined with eq!/ne!, mixed literal kinds per position. Every argument tuple of the domain in three modes (unordered strict, unordered with fallback, ordered) must be accepted iff the emitted native match accepts it. Also: guards that read state outside the arguments (arity 0..2, evaluated per call), disjunctions whose alternatives differ only inside a struct / enum / tuple pattern or in their path, three and four alternatives as documented. Bindings named like identifiers of the expansion (a<i>, l<k>, m<i>, reporter, mismatch) next to eq!/ne! and string literals must compile and decide like the native match; eq!/ne! mixed at one position across alternatives. eq!/ne! over a type with an asymmetric == and over a type that is PartialEq<str> and AsRef<str> with different equalities. Guards next to @-bindings they do not mention; ||-guards over disjunctions whose later alternative compares; a guard variable bound by different arguments in different alternatives.",
         note=G_NOTE + " Three genuine defects found by this check were fixed in /repo (guard precedence, three alternatives, bindings capturing temporaries of the expansion)."),
     "C11": dict(
         engine="F", category="fault_enumeration", design="3/C11",
         technique="exhaustive crash-point enumeration: one child process per (panic origin x instance topology x expectation) cell, exit status and panic reports judged by the parent",
-        text="23 panic origins (before/after calls, matcher, ordered matcher, answer, real function, default body, a mock error inside a default body, argument Debug, return Clone, every mock-induced error kind, by-value default body, a caught clone error followed by a user panic) x 15 topologies (plain, clone outliving / dying first, clone parked on another thread, Box/Rc/Arc, foreign creator thread with and without clone, origin on a worker thread holding a clone or the original, caught-and-continue, caught-and-repeat-the-same-call, original inside a guard whose Drop calls verify() with and without a live clone) x expectation met/unmet = 569 cells. No child may die by signal; exit status and number of panic reports must be what the cell implies; the first report is the injected panic, none is one of teardown's own sentences; caught cells keep working and verify according to the calls actually matched. As built: 24 origins (also a caught ordered-matcher panic while another thread completed the next ordered call) x 19 topologies (also caught-and-retry, verify() in a guard, lending clone, clone surviving the original, 20 000 lent values unwound on a small stack, a guard using mocks while unwinding), run on the std build and on std + critical-section.",
+        text="23 panic origins (before/after calls, matcher, ordered matcher, answer, real function, default body, a mock error inside a default body, argument Debug, return Clone, every mock-induced error kind, by-value default body, a caught clone error followed by a user panic) x 15 topologies (plain, clone outliving / dying first, clone parked on another thread, Box/Rc/Arc, foreign creator thread with and without clone, origin on a worker thread holding a clone or the original, caught-and-continue, caught-and-repeat-the-same-call, original inside a guard whose Drop calls verify() with and without a live clone) x expectation met/unmet = 569 cells. No child may die by signal; exit status and number of panic reports must be what the cell implies; the first report is the injected panic, none is one of teardown's own sentences; caught cells keep working and verify according to the calls actually matched. As built: 24 origins (also a caught ordered-matcher panic while another thread completed the next ordered call) x 19 topologies (also caught-and-retry, verify() in a guard, lending clone, clone surviving the original, 20 000 lent values unwound on a small stack, a guard using mocks while unwinding), run on the std build and on std + critical-section. The guard topology also makes a valid call whose argument cannot be rendered (its Debug panics).",
         note="std build; a double panic is observed as SIGABRT of the child. The table is enumerated completely in both tiers."),
     "C14": dict(
         engine="G+S", category="exploration", design="3/C14",
@@ -100,17 +100,17 @@ CHECKS = {
     "C16": dict(
         engine="G", category="exploration", design="3/C16",
         technique="exhaustive enumeration of a bounded grammar of unmock_with configurations; generated programs log the real function's invocations",
-        text="Receiver x parameter lists x unmock_with form {path, path(self,..), reordered, params only, _} x (methods in trait, position, skipped static fn in front) x {sync, async} x {strict + applies_unmocked, partial fall-through, partial mentioned-but-unmatched} x {required, provided with default body}; recursion depth 0..3 through the mock. The registered function runs exactly once per level with the mock and the caller's arguments in order, result unchanged, re-entrant calls hit the shared counters; `_` panics naming the method; unmentioned provided methods prefer the default body; a provided sibling method in the trait changes nothing for a required method; the error of an unmock without function is about its own call also after another recorded error. Also ordered series whose segments resolve to the real function (n_times(k).then() with an unquantified tail; a value first, then the real function) with recursion through the same mock. unmock_with=[f(self, <permuted parameters of one type>)] passes the listed order; an unquantified applies_unmocked() pattern in front of a broader pattern carves its exception out in strict and partial mocks.",
+        text="Receiver x parameter lists x unmock_with form {path, path(self,..), reordered, params only, _} x (methods in trait, position, skipped static fn in front) x {sync, async} x {strict + applies_unmocked, partial fall-through, partial mentioned-but-unmatched} x {required, provided with default body}; recursion depth 0..3 through the mock. The registered function runs exactly once per level with the mock and the caller's arguments in order, result unchanged, re-entrant calls hit the shared counters; `_` panics naming the method; unmentioned provided methods prefer the default body; a provided sibling method in the trait changes nothing for a required method; the error of an unmock without function is about its own call also after another recorded error. Also ordered series whose segments resolve to the real function (n_times(k).then() with an unquantified tail; a value first, then the real function) with recursion through the same mock. unmock_with=[f(self, <permuted parameters of one type>)] passes the listed order; an unquantified applies_unmocked() pattern in front of a broader pattern carves its exception out in strict and partial mocks. An argument whose Debug leaves a trace is passed on every way a call reaches the real function: nothing is rendered.",
         note=G_NOTE + " The genuine defect found here (&mut self / Pin receivers never unmocked) was fixed in /repo."),
     "C17": dict(
         engine="G", category="exploration", design="3/C17",
         technique="exhaustive enumeration of a bounded grammar of return types and their variants; generated programs compare observed and configured values",
-        text="Return types over {Option, Result, Vec, Poll, 1-4-tuples} x leaves {u32, non-Clone, &u32, &str, &[u8], &'static u32}, depth <= 2 (quick) / 3 (thorough); every variant and Vec lengths 0..4; single-use path and (if Clone) multi-use path. Observed value structurally equal (Debug with distinct payloads), borrowed leaves at the same addresses on repeated calls, second request panics exactly when the produced variant contains an owned leaf on the single-use path. Response series (n_times(0).then(), once().then(), ordered n_times(2).then(), three segments) over every pair of adjacent values: each call observes the value configured for its position.",
+        text="Return types over {Option, Result, Vec, Poll, 1-4-tuples} x leaves {u32, non-Clone, &u32, &str, &[u8], &'static u32}, depth <= 2 (quick) / 3 (thorough); every variant and Vec lengths 0..4; single-use path and (if Clone) multi-use path. Observed value structurally equal (Debug with distinct payloads), borrowed leaves at the same addresses on repeated calls, second request panics exactly when the produced variant contains an owned leaf on the single-use path. Response series (n_times(0).then(), once().then(), ordered n_times(2).then(), three segments) over every pair of adjacent values: each call observes the value configured for its position. A return type that the pinned tree accepts and that no longer compiles with the same configurations is a violation.",
         note=G_NOTE),
     "C19": dict(
         engine="G", category="exploration", design="3/C19",
         technique="exhaustive enumeration of parameter-type lists x error kinds and of sub-pattern tuples x failing argument tuples; generated programs compare exact message texts / parsed mismatch entries",
-        text="(A) parameter lists over 12 kinds (incl. &, &mut, &&, slices, non-Debug by value and reference, Option<&T>, generics with/without Debug) of arity 1-4 x 9 mock-induced error kinds: exact message predicted (call rendered with arguments in order, '?' without Debug, path only for missing real/default implementation). Post-selection failures (explicit panic, exhausted single-use value, no output) raised by the second pattern of a method name that pattern (by index, or by source text and line). (B) every tuple of 2-3 sub-patterns over {literal, _, or-literals, eq!, ne!} and over Option<u8> sub-patterns incl. refutable bare identifiers x every failing argument tuple of the domain, unordered (1 and 2 patterns), ordered and ordered with a multi-line invocation: the report lists exactly the rejected positions with kind and actual value; ordered messages name the pattern by source text and file:line. Typed positions also cover &str with string-literal or-patterns, char with ranges, and a type whose Debug hides the field == reads (under eq!/ne!): the listed value is the Debug rendering. Wrong-order messages name the pattern in line for every assignment of {first ordered, second ordered, unordered stub} to three methods; with three unordered patterns every entry carries the index of its own pattern.",
+        text="(A) parameter lists over 12 kinds (incl. &, &mut, &&, slices, non-Debug by value and reference, Option<&T>, generics with/without Debug) of arity 1-4 x 9 mock-induced error kinds: exact message predicted (call rendered with arguments in order, '?' without Debug, path only for missing real/default implementation). Post-selection failures (explicit panic, exhausted single-use value, no output) raised by the second pattern of a method name that pattern (by index, or by source text and line). (B) every tuple of 2-3 sub-patterns over {literal, _, or-literals, eq!, ne!} and over Option<u8> sub-patterns incl. refutable bare identifiers x every failing argument tuple of the domain, unordered (1 and 2 patterns), ordered and ordered with a multi-line invocation: the report lists exactly the rejected positions with kind and actual value; ordered messages name the pattern by source text and file:line. Typed positions also cover &str with string-literal or-patterns, char with ranges, and a type whose Debug hides the field == reads (under eq!/ne!): the listed value is the Debug rendering. Wrong-order messages name the pattern in line for every assignment of {first ordered, second ordered, unordered stub} to three methods; with three unordered patterns every entry carries the index of its own pattern. Pattern names with apostrophes, quotes and non-ASCII characters; the missing-implementation message also for a trait mocked without api=.",
         note=G_NOTE + " Built without pretty-print. Messages under concurrency are covered by C10 (each panic renders its own call; sequential-candidate oracle)."),
     "C20": dict(
         engine="S-style", category="exploration", design="3/C20",
